@@ -449,9 +449,27 @@ def replay_literal(ctx, g, o, inputs):
     rc, out, src = replaylib.compile_run(ctx, 'replay_literal', prog)
     p = replaylib.keep_replay_source(ctx, g, prog)
     lines = [l for l in out.splitlines() if l.startswith('MISMATCH')]
-    kind = ('type' if 'has the type' in o.key else 'value' if 'has the value' in o.key else
+    kind = ('type' if 'has the type' in o.key else 'value' if 'has the value' in o.key or 'converted value' in o.key else
             'cursor' if 'consumed' in o.key else 'raise' if 'no error' in o.key else 'source' if 'spelling' in o.key else '')
-    hit = [l for l in lines if not kind or ('[%s]' % kind) in l]
+
+    def same_class(line):
+        """the mismatching literal belongs to the class of literals the failed obligation speaks about"""
+        m = re.search(r'literal (\S+) ', line)
+        t = m.group(1) if m else ''
+        is_float = bool(re.search(r'[.]|^[0-9]+[eE]', t)) and not t.lower().startswith(('0x', '0b'))
+        has_u = not is_float and 'u' in t.lower() and t not in ('true',)
+        if o.key.startswith('h_literal: integer literal with u suffix'):
+            return has_u
+        if o.key.startswith('h_literal: decimal literal without u suffix'):
+            return not is_float and not has_u and t[:1] in '123456789'
+        if o.key.startswith('h_literal: binary/octal/hexadecimal literal without u suffix'):
+            return not is_float and not has_u and t[:1] == '0'
+        if o.key.startswith('h_literal: floating literal'):
+            return is_float
+        if o.key.startswith('h_literal: boolean literal'):
+            return t in ('true', 'false')
+        return True
+    hit = [l for l in lines if (not kind or ('[%s]' % kind) in l) and same_class(l)]
     first = bool(cx) and any(('literal %s ' % cx[0]) in l for l in hit)
     return {'reproduced': rc == 1 and bool(hit), 'counterexample_literal': cx[0] if cx else None,
             'counterexample_reproduced_itself': first, 'failing_kind': kind,
